@@ -27,6 +27,26 @@ def rejection_oracle(chk, res, dres):
             if real[0] != "err":
                 chk.violation("variant-spec-accepted", {"item": r["src"], "derive": it["trait"]},
                               "`_variant` placeholder with a format specifier was not rejected: %s" % r["src"])
+    # field-less variants without a format of their own under the non-Display derives: refused when nothing gives them a
+    # text (no enum-level format), printed from the enum-level format when that is a plain default (repo fix 3d5b8b4)
+    for r in res:
+        it = r["item"]
+        if it["kind"] != "enum" or it["trait"] == "Display" or it.get("exotic"):
+            continue
+        if not any(v.get("fmt") is None and not v["fields"]["list"] for v in it["variants"]):
+            continue
+        a = it["container"].get("fmt")
+        real = C.real_display(r["resp"])
+        if a is None:
+            chk.bump("oracle:unit-not-covered")
+            if real[0] != "err":
+                chk.violation("unit-variant-without-format-accepted", {"item": r["src"], "derive": it["trait"]},
+                              "a field-less variant without any format was accepted by a non-Display derive: %s" % r["src"])
+        elif "_variant" not in a["lit"] and not any("_variant" in x["expr"] or x["alias"] == "_variant" for x in a["args"]):
+            chk.bump("oracle:unit-covered-by-default")
+            if real[0] == "err" and real[1] == 2:
+                chk.violation("unit-variant-refused-despite-default", {"item": r["src"], "derive": it["trait"]},
+                              "a field-less variant covered by the enum-level default format was refused: %s" % r["src"])
     for r in dres:
         it = r["item"]
         if it["kind"] == "enum" and it["container"].get("fmt") is not None:
@@ -38,7 +58,7 @@ def rejection_oracle(chk, res, dres):
 
 def run(tier, seed, replay):
     chk = common.Check("C07", tier, seed)
-    st = common.check_proofs(chk, "C07", extra_dirs=("Fmt", "Gen"))
+    st = common.check_proofs(chk, "C07", extra_dirs=("Fmt", "Gen", "C02", "C05"))
     n = 4000 if tier == "quick" else 24000
     res, dres = C.decision_tie(chk, n, n // 3, focus="enum")
     rejection_oracle(chk, res, dres)
@@ -93,7 +113,7 @@ def run(tier, seed, replay):
         rule="(1) generated enums (0-3 variants: unit/tuple/named, with/without own attribute, rename_all) x enum-level literals "
              "(none, plain default, `_variant` as placeholder / positional arg / named arg / twice / with a specifier / non-Display / "
              "re-bound) x 8 Display-like traits + Debug: model vs real expander, and a regex reading of the property text for the "
-             "rejections; (2) well-typed enums compiled with the real macro, every variant's output vs a reference built from plain "
+             "rejections (incl. field-less variants of non-Display derives: refused without an enum-level format, printed from a plain default); (2) well-typed enums compiled with the real macro, every variant's output vs a reference built from plain "
              "format! calls following the documented meaning (own attribute, else single field, else name); non-trivial = every case "
              "(each involves an enum-level or variant-level decision); distinct by item source / (decl, variant)",
         trusted=C.FMT_TRUSTED)
@@ -106,7 +126,10 @@ META = {
             "without an attribute of their own; one that mentions it wraps every variant with `_variant` bound to the variant's own "
             "text (own attribute / single field under the derived trait / name), multi-field variants without format are rejected; "
             "a bare `{_variant}` of the derived trait equals no attribute; a `_variant` placeholder with a specifier or non-Display "
-            "trait, and an enum-level format on Debug, are rejected. Model tied to the expander on ~2000 generated items per run; "
+            "trait, and an enum-level format on Debug, are rejected. Complete case analyses: shared_attr_info, the diagnostics of "
+            "generate_body, of one variant and of expand_enum (first refused variant wins) as iff statements; the documented meaning as one "
+            "equation; rename_all of unit variants (own, else the enum's); the literal standing for a single-field variant is the bare "
+            "placeholder of the derived trait. Model tied to the expander on ~2000 generated items per run; "
             "the real macro's output for every variant is compared with a plain-format! reference at run time.",
     "note": "Trusted: Coq kernel; Fmt/Model.v tied by differential runs; semantics of `match x { _variant => write!(..) }` and "
             "format_args! capture (exercised at run time); generators; in-process harness.",
